@@ -131,7 +131,8 @@ def civilOfMs (ms : Int) : Option DateTime :=
 /-- `-i64::MAX`: the smallest millisecond count `TimeDelta::try_milliseconds` accepts -/
 def minDeltaMs : Int := -9223372036854775807
 
-/-- `TimeDelta::try_milliseconds(ms)` for an `i64` argument, as the total number of milliseconds -/
+/-- the guard in front of `Duration::milliseconds(ms)` for an `i64` argument (`ms == i64::MIN`
+    ⇒ `None`; equivalently `TimeDelta::try_milliseconds(ms)`), as the total number of milliseconds -/
 def tryMilliseconds (ms : Int) : Option Int :=
   if ms < minDeltaMs then none else some ms
 
